@@ -230,6 +230,12 @@ func (c *DefaultCrawler) Run(ctx context.Context, startingPeers []*peer.AddrInfo
 		}
 		peerAddrs.addPeerAddrsNoLock(ai.ID, extendAddrs)
 
+		if _, ok := peersSeen[ai.ID]; ok {
+			// Seed listed more than once (e.g. a bootstrap peer that was also
+			// found by the previous crawl): its addresses were merged above,
+			// but it must be queried only once.
+			continue
+		}
 		toDial = append(toDial, ai)
 		peersSeen[ai.ID] = struct{}{}
 	}
